@@ -140,12 +140,13 @@ Proof.
 Qed.
 
 Lemma sread_exact : forall s body rest, remaining s = body ++ rest ->
-  exists s', sread (length body) s = (body, s') /\ remaining s' = rest.
+  sread (length body) s = (body, {| s_data := s_data s; s_pos := s_pos s + length body |}) /\
+  remaining {| s_data := s_data s; s_pos := s_pos s + length body |} = rest.
 Proof.
   intros s body rest H. unfold sread. rewrite H.
   assert (E : firstn (length body) (body ++ rest) = body).
   { rewrite firstn_app, Nat.sub_diag, firstn_all. cbn. apply app_nil_r. }
-  rewrite E. eexists. split; [reflexivity|].
+  rewrite E. split; [reflexivity|].
   unfold remaining in *. cbn [s_data s_pos]. rewrite skipn_add, H.
   rewrite skipn_app, Nat.sub_diag, skipn_all. reflexivity.
 Qed.
@@ -297,7 +298,7 @@ Section WithCodec.
     destruct Hle as [|le0 H0]; cbn [resolve_le] in Hres;
       [ rewrite Hres
       | destruct (le_values_facts le0 H0) as [F1 [_ [F3 _]]]; rewrite F1 in Hres |- *; rewrite F3;
-        injection Hres as <- <- ];
+        injection Hres as Hr1 Hr2; subst le0; rewrite Hr2 ];
       cbn [bind]; unfold encode_dyn; rewrite He;
       rewrite (py_encode_laws nl nlb Hnl), (py_encode_laws t b Hb); cbn [bind];
       rewrite Hn6, (bends_final _ nl nlb t b Hin Hnl Ht Hb); fold d.
@@ -306,4 +307,260 @@ Section WithCodec.
       [ replace (negb (k =? 0)%Z) with true by lia | replace (negb (k =? 0)%Z) with false by lia ];
       reflexivity.
   Qed.
+
+  Lemma final_bytes : forall nl nlb t' b', suffixb N.eqb nl t' = true -> enc0 t' = Some b' -> enc0 nl = Some nlb ->
+    exists q, bom ++ b' = q ++ nlb.
+  Proof.
+    intros nl nlb t' b' E Hb' Hnl. apply (suffixb_spec N.eqb N_eqb_spec) in E. destruct E as [q ->].
+    rewrite (cl_hom _ _ _ _ laws), Hnl in Hb'. destruct (enc0 q) as [bq|]; [|discriminate].
+    cbn in Hb'. injection Hb' as <-. exists (bom ++ bq). rewrite app_assoc. reflexivity.
+  Qed.
+
+  Definition indent_body (indent : wv) (d : bytes) (lines : list bytes) : bytes :=
+    match indent with
+    | WInt k => if (0 <? k)%Z then concat (map (app (repeat_b x20 (Z.to_nat k))) lines) else d
+    | _ => d
+    end.
+
+  Lemma read_text_eval : forall st rest indent le nl nlb t' b' lines,
+    In le GenText.line_endings_values -> assoc_get beq le GenText.newline_formats = Some nl ->
+    enc0 nl = Some nlb -> indent_arg indent ->
+    enc0 t' = Some b' -> suffixb N.eqb nl t' = true ->
+    split_lines (bom ++ b') nlb true = Ok lines ->
+    let body := indent_body indent (bom ++ b') lines in
+    remaining (st_stream st) = body ++ rest ->
+    (Z.of_nat (length body) <= sys_maxsize)%Z ->
+    read_content st (Z.of_nat (length body)) (Some (VStr enc)) (indent_pv indent) (Some (VStr le)) false =
+      COk (PText t') {| st_stream := {| s_data := s_data (st_stream st); s_pos := s_pos (st_stream st) + length body |};
+                        st_linenum := (st_linenum st + Z.of_nat (length lines))%Z; st_fnl := st_fnl st |}
+    /\ remaining {| s_data := s_data (st_stream st); s_pos := s_pos (st_stream st) + length body |} = rest.
+  Proof.
+    intros st rest indent le nl nlb t' b' lines Hv Hassoc Hnl Hind Hb' Hfin Hl body Hrem Hmax.
+    pose proof (assoc_get_In _ _ _ Hassoc) as Hin.
+    destruct (cl_nl _ _ _ _ laws le nl Hin) as [nlb' [Hn1 [Hn2 [Hn3 [Hn4 [Hn5 [Hn6 Hn7]]]]]]].
+    rewrite Hnl in Hn1. injection Hn1 as <-.
+    destruct (final_bytes nl nlb t' b' Hfin Hb' Hnl) as [q Hq].
+    set (d := bom ++ b') in *.
+    assert (Hd : d <> []) by (rewrite Hq; destruct q; destruct nlb; cbn; congruence).
+    assert (Hsd : suffixb byte_eqb nlb d = true) by (apply (suffixb_spec byte_eqb byte_eqb_spec); exists q; exact Hq).
+    assert (Hsp : forall k x, In x (repeat_b x20 k) -> ~ In x nlb).
+    { intros k x Hx Hi. apply in_repeat_b in Hx. subst x. exact (Hn4 Hi). }
+    pose proof (fun k => split_lines_indented byte_eqb byte_eqb_spec nlb d (repeat_b x20 k) lines
+                           Hn2 Hn3 Hd Hsd (Hsp k) Hl) as Hindt.
+    assert (Hcat : concat lines = d) by apply (Hindt 0%nat).
+    assert (Hlne : lines <> []) by apply (Hindt 0%nat).
+    (* what the reader sees of the body *)
+    assert (Hbody : exists lines_r, split_lines body nlb true = Ok lines_r /\ length lines_r = length lines /\
+                      body <> [] /\
+                      match indent_pv indent with
+                      | Some (VInt z) =>
+                          if (0 <? z)%Z
+                          then concat (map (strip_spaces (Z.to_nat (Z.min z (Z.of_nat (length body))))) lines_r)
+                          else body
+                      | _ => body
+                      end = d).
+    { unfold body, indent_body. destruct Hind as [|k Hk]; cbn [indent_pv].
+      - exists lines. auto.
+      - destruct (0 <? k)%Z eqn:Ek.
+        + destruct (Hindt (Z.to_nat k)) as [I1 [_ [_ I4]]].
+          set (sp := repeat_b x20 (Z.to_nat k)) in *.
+          exists (map (app sp) lines). split; [exact I1|]. split; [apply map_length|].
+          assert (Hlen : Z.to_nat k <= length (concat (map (app sp) lines))).
+          { destruct lines as [|l0 ls]; [congruence|]. cbn [map concat]. rewrite !app_length.
+            unfold sp. rewrite repeat_b_length. lia. }
+          split.
+          * intros Hn. rewrite Hn in Hlen. cbn in Hlen. lia.
+          * replace (Z.to_nat (Z.min k (Z.of_nat (length (concat (map (app sp) lines)))))) with (Z.to_nat k) by lia.
+            unfold sp. rewrite concat_strip_indent. exact Hcat.
+        + exists lines. auto. }
+    destruct Hbody as [lines_r [Hr1 [Hr2 [Hr3 Hr4]]]].
+    clearbody body.
+    destruct (sread_exact (st_stream st) body rest Hrem) as [Hs1 Hs2].
+    unfold read_content. rewrite Hrem, (read_size body rest Hmax), Hs1.
+    rewrite (is_nil_false body Hr3).
+    assert (Hib : match indent_pv indent with
+                  | Some (VInt z) => (z <? 0)%Z | Some (VStr _) => true | None => false end = false).
+    { destruct Hind as [|k Hk]; cbn [indent_pv]; [reflexivity | lia]. }
+    rewrite Hib. cbn [pv_truthy]. destruct (le_values_facts le Hv) as [_ [Hnle _]]. rewrite Hnle.
+    unfold get_newline_for_type. cbn [enc_or_ascii]. rewrite Hassoc, (py_encode_laws nl nlb Hnl). cbn [bind].
+    rewrite Hn6, Hr1, Hr4. unfold d. rewrite (py_decode_laws t' b' Hb' Hd).
+    assert (Hdn : py_decode nlb enc = Ok nl).
+    { unfold py_decode. rewrite (is_nil_false nlb Hn2). destruct (cl_lookup _ _ _ _ laws) as [canon ->].
+      rewrite Hn5. reflexivity. }
+    rewrite Hdn, Hfin, Hr2. split; [reflexivity | exact Hs2].
+  Qed.
 End WithCodec.
+
+(* ------------------------------------------------------------------------------------------------ *)
+(* the content round trip for text sections *)
+
+Lemma final_text_ends : forall nl t, suffixb N.eqb nl (final_text nl t) = true.
+Proof.
+  intros nl t. unfold final_text. destruct (suffixb N.eqb nl t) eqn:E; [exact E|].
+  apply (suffixb_app N.eqb N_eqb_spec).
+Qed.
+
+Theorem content_round_trip :
+  forall enc c bom enc0, codec_laws enc c bom enc0 ->
+  forall (s : wstate) (e t : text) (b : bytes) (lev indent : wv),
+    c_enc ascii e = Some enc -> t <> [] -> enc0 t = Some b -> le_arg lev -> indent_arg indent ->
+    exists body le nl nlb b' lines,
+      resolve_le lev t = (le, nl) /\ In (le, nl) GenText.newline_formats /\
+      enc0 nl = Some nlb /\ enc0 (final_text nl t) = Some b' /\
+      split_lines (bom ++ b') nlb true = Ok lines /\
+      body = indent_body indent (bom ++ b') lines /\
+      prepare_content s (CText t) indent lev (WStr e) true = Ok (body, WStr (ascii_text le)) /\
+      forall st rest, remaining (st_stream st) = body ++ rest -> (Z.of_nat (length body) <= sys_maxsize)%Z ->
+        exists st',
+          read_content st (Z.of_nat (length body)) (Some (VStr enc)) (indent_pv indent) (Some (VStr le)) false
+            = COk (PText (final_text nl t)) st' /\
+          remaining (st_stream st') = rest /\
+          st_linenum st' = (st_linenum st + Z.of_nat (length lines))%Z /\
+          st_fnl st' = st_fnl st.
+Proof.
+  intros enc c bom enc0 laws s e t b lev indent He Ht Hb Hle Hind.
+  destruct (resolve_le lev t) as [le nl] eqn:Hres.
+  destruct (resolve_le_ok lev t le nl Hle Hres) as [Hv [Hassoc Hin]].
+  destruct (cl_nl _ _ _ _ laws le nl Hin) as [nlb [Hnl [Hn2 _]]].
+  set (b' := if suffixb N.eqb nl t then b else b ++ nlb).
+  assert (Hb' : enc0 (final_text nl t) = Some b').
+  { unfold final_text, b'. destruct (suffixb N.eqb nl t); [exact Hb|].
+    rewrite (cl_hom _ _ _ _ laws), Hb, Hnl. reflexivity. }
+  assert (Hd : (if suffixb N.eqb nl t then bom ++ b else (bom ++ b) ++ nlb) = bom ++ b').
+  { unfold b'. destruct (suffixb N.eqb nl t); [reflexivity | rewrite app_assoc; reflexivity]. }
+  destruct (final_bytes enc c bom enc0 laws nl nlb _ b' (final_text_ends nl t) Hb' Hnl) as [q Hq].
+  assert (Hdne : bom ++ b' <> []) by (rewrite Hq; destruct q; destruct nlb; cbn; congruence).
+  destruct (C16_total_ok byte_eqb byte_eqb_spec (bom ++ b') nlb true Hdne Hn2) as [lines Hl].
+  exists (indent_body indent (bom ++ b') lines), le, nl, nlb, b', lines.
+  repeat (split; [first [reflexivity | assumption]|]). split.
+  - rewrite (prepare_text_eval enc c bom enc0 laws s e t b He Ht Hb lev indent le nl nlb Hle Hind Hres Hnl).
+    cbv zeta. rewrite Hd. unfold indent_body, split_lines in *. rewrite Hl. cbn [bind].
+    destruct indent; try reflexivity. destruct (0 <? z)%Z; reflexivity.
+  - intros st rest Hrem Hmax.
+    destruct (read_text_eval enc c bom enc0 laws st rest indent le nl nlb (final_text nl t) b' lines
+                Hv Hassoc Hnl Hind Hb' (final_text_ends nl t) Hl Hrem Hmax) as [R1 R2].
+    eexists. split; [exact R1|]. cbn [st_stream st_linenum st_fnl]. auto.
+Qed.
+
+(* ------------------------------------------------------------------------------------------------ *)
+(* the content round trip for diffs: bytes in, bytes out (keep_bytes), no inheritance, no indentation *)
+
+Inductive diff_enc_arg (enc bom : bytes) : wv -> Prop :=
+| de_none : enc = B "ascii" -> bom = [] -> diff_enc_arg enc bom WNone
+| de_str : forall e, c_enc ascii e = Some enc -> diff_enc_arg enc bom (WStr e).
+
+Definition enc_pv (enc : bytes) (encoding : wv) : option pv :=
+  match encoding with WStr _ => Some (VStr enc) | _ => None end.
+
+Lemma ascii_name : c_enc ascii (ascii_text (B "ascii")) = Some (B "ascii").
+Proof. vm_compute. reflexivity. Qed.
+
+Lemma le_named : In GenText.le_unix GenText.line_endings_values /\ In GenText.le_dos GenText.line_endings_values.
+Proof. cbv. auto. Qed.
+
+Section DiffWithCodec.
+  Variables (enc : bytes) (c : codec) (bom : bytes) (enc0 : text -> option bytes).
+  Hypothesis laws : codec_laws enc c bom enc0.
+
+  Lemma newline_bytes : forall le, In le GenText.line_endings_values ->
+    exists nlb, enc0 (nl_text le) = Some nlb /\ nlb <> [] /\
+                get_newline_for_type le (Some enc) = Ok nlb /\
+                py_encode (nl_text le) enc = Ok (bom ++ nlb) /\
+                strip_bom (bom ++ nlb) (Some enc) = nlb /\ strip_bom nlb (Some enc) = nlb.
+  Proof.
+    intros le Hv. destruct (le_values_facts le Hv) as [_ [_ [Hassoc _]]].
+    destruct (cl_nl _ _ _ _ laws le _ (assoc_get_In _ _ _ Hassoc)) as [nlb [Hn1 [Hn2 [_ [_ [_ [Hn6 Hn7]]]]]]].
+    exists nlb. repeat split; auto.
+    - unfold get_newline_for_type. cbn [enc_or_ascii]. rewrite Hassoc, (py_encode_laws enc c bom enc0 laws _ _ Hn1).
+      cbn [bind]. rewrite Hn6. reflexivity.
+    - apply (py_encode_laws enc c bom enc0 laws). exact Hn1.
+  Qed.
+
+  Lemma guess_bytes_ok : forall b, exists le nlb,
+    guess_line_endings_bytes b (Some enc) = Ok (le, nlb) /\ In le GenText.line_endings_values /\
+    enc0 (nl_text le) = Some nlb.
+  Proof.
+    intros b. destruct le_named as [Hu Hd].
+    destruct (newline_bytes _ Hu) as [nu [U1 [_ [_ [U4 [U5 _]]]]]].
+    destruct (newline_bytes _ Hd) as [nd [D1 [_ [_ [D4 [D5 _]]]]]].
+    unfold guess_line_endings_bytes. cbn [enc_or_ascii]. rewrite U4, D4. cbn [bind]. rewrite U5, D5.
+    destruct (bfind nu b); [destruct (bends nd _)|]; eauto 6.
+  Qed.
+End DiffWithCodec.
+
+Theorem diff_round_trip :
+  forall enc c bom enc0, codec_laws enc c bom enc0 ->
+  forall (s : wstate) (b : bytes) (lev encoding : wv),
+    b <> [] -> le_arg lev -> diff_enc_arg enc bom encoding ->
+    exists body le nlb lines,
+      In le GenText.line_endings_values /\ enc0 (nl_text le) = Some nlb /\
+      (lev = WNone -> guess_line_endings_bytes b (Some enc) = Ok (le, nlb)) /\
+      (forall l, lev = WStr (ascii_text l) -> In l GenText.line_endings_values -> le = l) /\
+      body = (if bends nlb b then b else b ++ nlb) /\
+      split_lines body nlb true = Ok lines /\
+      prepare_content s (CBytes b) WNone lev encoding false = Ok (body, WStr (ascii_text le)) /\
+      forall st rest, remaining (st_stream st) = body ++ rest -> (Z.of_nat (length body) <= sys_maxsize)%Z ->
+        exists st',
+          read_content st (Z.of_nat (length body)) (enc_pv enc encoding) None (Some (VStr le)) true
+            = COk (PBytes body) st' /\
+          remaining (st_stream st') = rest /\
+          st_linenum st' = (st_linenum st + Z.of_nat (length lines))%Z /\
+          st_fnl st' = st_fnl st.
+Proof.
+  intros enc c bom enc0 laws s b lev encoding Hbne Hle Henc.
+  (* the resolved line ending *)
+  assert (R : exists le nlb, In le GenText.line_endings_values /\ enc0 (nl_text le) = Some nlb /\
+                (lev = WNone -> guess_line_endings_bytes b (Some enc) = Ok (le, nlb)) /\
+                (forall l, lev = WStr (ascii_text l) -> In l GenText.line_endings_values -> le = l)).
+  { destruct Hle as [|le0 H0].
+    - destruct (guess_bytes_ok enc c bom enc0 laws b) as [le [nlb [G1 [G2 G3]]]].
+      exists le, nlb. repeat split; auto. intros l Hl. discriminate.
+    - destruct (newline_bytes enc c bom enc0 laws le0 H0) as [nlb [N1 _]].
+      exists le0, nlb. repeat split; auto; [discriminate|].
+      intros l Hl Hlv. injection Hl as Hl.
+      destruct (le_values_facts le0 H0) as [F1 _]. destruct (le_values_facts l Hlv) as [F2 _].
+      rewrite Hl in F1. congruence. }
+  destruct R as [le [nlb [Hv [Hnl [Hg Hd]]]]].
+  destruct (newline_bytes enc c bom enc0 laws le Hv) as [nlb' [N1 [N2 [N3 [N4 [N5 N6]]]]]].
+  rewrite Hnl in N1. injection N1 as <-.
+  set (body := if bends nlb b then b else b ++ nlb).
+  assert (Hbody : body <> []) by (unfold body; destruct (bends nlb b); [exact Hbne | destruct b; [congruence | discriminate]]).
+  assert (Hends : bends nlb body = true).
+  { unfold body. destruct (bends nlb b) eqn:E; [exact E|]. apply bends_iff. exists b. reflexivity. }
+  destruct (C16_total_ok byte_eqb byte_eqb_spec body nlb true Hbody N2) as [lines Hl].
+  exists body, le, nlb, lines. repeat (split; [first [reflexivity | assumption]|]). split.
+  - destruct (cl_lookup _ _ _ _ laws) as [canon Hlk].
+    unfold prepare_content. rewrite (is_nil_false b Hbne). cbv beta iota zeta.
+    assert (E1 : (match lev with WNone => Ok true | _ => in_strset lev GenText.line_endings_values end) = Ok true).
+    { destruct Hle as [|le0 H0]; [reflexivity|]. cbn [in_strset].
+      destruct (le_values_facts le0 H0) as [_ [_ [_ ->]]]. reflexivity. }
+    rewrite E1. cbn [bind negb]. rewrite andb_false_r. cbn [bind].
+    destruct Henc as [Ha Hb0 | e He].
+    + subst enc bom. cbn [wv_truthy]. cbv iota.
+      destruct Hle as [|le0 H0].
+      * cbn [enc_name]. rewrite ascii_name. cbn [bind]. rewrite (Hg eq_refl). cbn [bind fst snd strip_bom].
+        reflexivity.
+      * pose proof (Hd le0 eq_refl H0) as Hx. subst le0.
+        destruct (le_values_facts le H0) as [F1 [_ [F3 _]]]. rewrite F1, F3.
+        unfold encode_dyn. rewrite ascii_name, N4. cbn [bind app strip_bom]. reflexivity.
+    + pose proof (encode_ascii_nonempty e enc He (lookup_nonempty enc canon c Hlk)) as Hne.
+      change (wv_truthy (WStr e)) with (nonempty e). rewrite Hne. cbv iota.
+      destruct Hle as [|le0 H0].
+      * cbn [enc_name]. rewrite He. cbn [bind]. rewrite (Hg eq_refl). cbn [bind fst snd]. rewrite N6.
+        reflexivity.
+      * pose proof (Hd le0 eq_refl H0) as Hx. subst le0.
+        destruct (le_values_facts le H0) as [F1 [_ [F3 _]]]. rewrite F1, F3.
+        unfold encode_dyn. rewrite He, N4. cbn [bind]. rewrite N5. reflexivity.
+  - intros st rest Hrem Hmax.
+    destruct (sread_exact (st_stream st) body rest Hrem) as [Hs1 Hs2].
+    unfold read_content. rewrite Hrem, (read_size body rest Hmax), Hs1.
+    rewrite (is_nil_false body Hbody).
+    cbn [pv_truthy]. destruct (le_values_facts le Hv) as [_ [Hnle _]]. rewrite Hnle.
+    assert (Hnl' : get_newline_for_type le match enc_pv enc encoding with Some (VStr s0) => Some s0 | _ => None end = Ok nlb).
+    { destruct Henc as [Ha Hb0 | e He]; cbn [enc_pv]; [|exact N3].
+      subst enc. unfold get_newline_for_type in *. cbn [enc_or_ascii] in *. exact N3. }
+    rewrite Hnl'. unfold split_lines. rewrite Hl, Hends.
+    eexists. split.
+    + destruct Henc; cbn [enc_pv]; reflexivity.
+    + cbn [st_stream st_linenum st_fnl]. auto.
+Qed.
